@@ -41,7 +41,11 @@ MANIFEST = dict(
           "returns reduce_deg of the exact result (hence in range and congruent), division/modulo by zero gives "
           "ZeroDivisionError; to_positive maps (-360, 360) into [0, 360) congruently; get_ra = deg/15; over the reals "
           "(AngleR) radians input is reduce_deg(x*180/pi), rad() = deg*pi/180 and ** with a float/Angle exponent on a "
-          "positive base is Angle(real power). The model is tied to /repo by "
+          "positive base is Angle(real power), a negative base with a fractional exponent raises TypeError, and rad() "
+          "after to_positive() is the radian value of the new value. Also proved: every whole number of turns is "
+          "stored as 0; every constructor shape that succeeds is in range; reduce_dms returns canonical pieces for any "
+          "three rationals; + and * commute, -(-a) = a, a - a = 0, to_positive is idempotent; the order comparisons are "
+          "a trichotomy. The model is tied to /repo by "
           "running its binary64 instantiation against CPython bit for bit and its exact instantiation within the "
           "property's tolerance modulo 360; the clauses are evaluated on the implementation with an exact-rational "
           "oracle over boundary-heavy inputs (multiples of 360, +-ulp at 0 and +-360, denormals, -0.0, up to 1e15). "
